@@ -12,7 +12,7 @@ hooks_commits = [l.split()[0] for l in subprocess.run(["git", "-C", "/repo", "lo
 checks, na = [], []
 for pid in allids:
     m = props.get(pid, {})
-    claimed = m.get("claimed", False) and (any(pid in h.props for h in hs) or any(pid in ps for (_, ps, _) in lem))
+    claimed = m.get("claimed", False) and (m.get("engine") == "rustc-traits" or any(pid in h.props for h in hs) or any(pid in ps for (_, ps, _) in lem))
     if not claimed:
         na.append({"property_id": pid, "reason": m.get("na_reason", "no check built yet")})
         continue
